@@ -122,7 +122,7 @@ package pq
 // Construction: every input that delivers a first element gets one slot; after each insertion the queue is a heap again.
 //@ func (*PriorityQueue).init
 //@   props C16
-//@   requires pq.comp != nil && pq.size == 0 && len(iterators) < 4611686018427387904 &&
+//@   requires pq.comp != nil && pq.size == 0 &&
 //@            (forall a Int :: 0 <= a && a < len(iterators) ==> iterators[a] != nil)
 //@   ensures [C16:a-new-queue-is-a-heap] r0 == nil ==> pqShape(pq) && pqDistinctExcept(pq, 0) && (cmpOK(pq.comp) ==> pqHeapExcept(pq, 0))
 //@   loop 0
@@ -158,5 +158,6 @@ package pq
 //@   fresh r0
 //@   modifies inPos(*), itPos(*)
 //@   props C16
-//@   requires comp != nil && len(iterators) < 4611686018427387904 && (forall a Int :: 0 <= a && a < len(iterators) ==> iterators[a] != nil)
+//@   requires [comparator-given] comp != nil
+//@   requires [no-nil-input] forall a Int :: 0 <= a && a < len(iterators) ==> iterators[a] != nil
 //@   exit [C16:a-new-queue-is-a-heap] r1 == nil ==> pqShape(q) && pqDistinctExcept(q, 0) && (cmpOK(q.comp) ==> pqHeapExcept(q, 0))
